@@ -42,11 +42,14 @@ def _run(args):
     tr.cfg = cfg_idx
     tr.crashed = None
     cfgp = os.path.join(proj, "Breadlog.yaml")
-    to = max(60, len(cases) * 0.5)
+    # generous: wall time is C17's business, here a slow machine must not turn into a verdict
+    to = max(180, len(cases) * 0.5) + sum(len(c[0]) for c in cases) / 2000.0
 
     def go(check):
         r = cli.run_breadlog(cfgp, check=check, cwd=work, tmpdir=tmp, timeout=to)
-        if r.panicked or r.timed_out or r.signal is not None:
+        if r.timed_out:
+            tr.crashed = ("timeout", "check" if check else "edit", "no result within %.0f s" % to)
+        elif r.panicked or r.signal is not None:
             tr.crashed = ("check" if check else "edit", repr(r), r.stderr[-300:].decode("utf-8", "replace"))
         return r
 
@@ -177,6 +180,10 @@ def run_trees(cases, steps=2, per_tree=1500, use_cache=False, pool=None):
         pool = multiprocessing.Pool(min(NCPU, max(1, len(jobs))))
     try:
         for tr in pool.imap_unordered(_run, jobs):
+            if tr.crashed and tr.crashed[0] == "timeout":
+                from vcommon import MachineryError
+                raise MachineryError("a batch of %d files did not finish its %s run: %s (run time is judged by C17, not here)" % (
+                    len(tr.files) if tr.files else -1, tr.crashed[1], tr.crashed[2]))
             yield tr
     finally:
         if own:
